@@ -8,12 +8,12 @@
 (* method through the framing of an actual render, forced support also       *)
 (* through the instantiation gate).                                          *)
 (*                                                                         *)
-(*   trace = [fam, par, nc, dm, fl, geo, init, ev]   (dm: derived-metaclass      *)
+(*   trace = [fam, par, nc, dm, fl, real, geo, init, ev]   (dm: derived-metaclass      *)
 (*           flags, fl: classes whose instances are falsy)                    *)
 (*   geo   = [cw, ch, rw, rh, ow, oh]: cell px, rendered cells, source px     *)
 (*   init  = override maps the history starts from (all unset for recorded   *)
 (*           histories; the spec state for replayed edges, see the driver)   *)
-(*   event = [k, set, n, a, res, eff, px, gate, used, usedpx]; px[n] = pixel  *)
+(*   event = [k, set, n, a, res, eff, px, gate, clr, used, usedpx]; px[n] = pixel  *)
 (*           size ("WxH") of the data the no-override render of node n        *)
 (*           transmitted, usedpx = same for a render op; observed values are  *)
 (*           sent in the compact text form Show(v), "skip:0" = not observed   *)
@@ -36,14 +36,14 @@ VARIABLES tid, l, S, Hc, Hi, verdict, at, vset
 vars == <<tid, l, S, Hc, Hi, verdict, at, vset>>
 
 Tr == Traces[tid]
-T == [par |-> Tr.par, nc |-> Tr.nc, dm |-> Tr.dm, fl |-> Tr.fl]
+T == [par |-> Tr.par, nc |-> Tr.nc, dm |-> Tr.dm, fl |-> Tr.fl, real |-> Tr.real]
 Fam == Tr.fam
 G == Tr.geo
 NE == Len(Tr.ev)
 
 WFTrace(tr) ==
   /\ tr.fam \in {"kitty", "iterm2"}
-  /\ WellFormedTree([par |-> tr.par, nc |-> tr.nc, dm |-> tr.dm, fl |-> tr.fl])
+  /\ WellFormedTree([par |-> tr.par, nc |-> tr.nc, dm |-> tr.dm, fl |-> tr.fl, real |-> tr.real])
   /\ \A set \in Settings : Len(tr.init[set]) = Len(tr.par)
   /\ WellFormedGeo(tr.geo)
 
@@ -53,6 +53,8 @@ WFEvent(e) ==
   /\ e.k \in {"set", "unset", "render"}
   /\ e.set \in SettingsOf(Fam)
   /\ e.n \in Nodes(T)
+  /\ Applies(T, Fam, e.set, e.n)      \* forced_support anywhere, the rest at / below the style class
+  /\ Len(e.clr) = Len(T.par)
   /\ e.k = "unset" => e.a = Unset
   /\ e.k = "render" => e.set = "rm" /\ (e.a = Unset \/ (e.a.t = "str" /\ e.a.s \in Methods(Fam)))
   /\ \A set \in Settings : Len(e.eff[set]) = Len(T.par)
@@ -70,15 +72,18 @@ ApplyH(kind, H, op) ==
 Diff(e, S2, set) ==
   {n \in Nodes(T) : e.eff[set][n] # "skip:0" /\ e.eff[set][n] # Show(ObsEff(T, Fam, S2, set, n))}
 GateDiff(e, S2) == {n \in Nodes(T) : e.gate[n] # "skip" /\ e.gate[n] # Gate(T, S2, n)}
+\* clear() of the invoking class on a terminal without graphics support
+ClrDiff(e, S2) == {n \in Nodes(T) : e.clr[n] # "skip" /\ e.clr[n] # ClearObs(T, Fam, S2, n)}
 \* nodes whose no-override render transmitted data of a size the effective method does not dictate
 PxDiff(e, S2) == {n \in Nodes(T) : e.px[n] # "skip" /\ e.px[n] \notin PxSet(G, Eff(T, S2, "rm", n).s)}
 MatchesAll(e, S2) ==
-  (\A set \in Settings : Diff(e, S2, set) = {}) /\ GateDiff(e, S2) = {} /\ PxDiff(e, S2) = {}
+  /\ \A set \in Settings : Diff(e, S2, set) = {}
+  /\ GateDiff(e, S2) = {} /\ ClrDiff(e, S2) = {} /\ PxDiff(e, S2) = {}
 
 \* every setting whose observation contradicts the model shows exactly what hypothesis H predicts
 ExplainedBy(e, S2, H) ==
   LET bad == {set \in Settings : Diff(e, S2, set) # {}} IN
-  bad # {} /\ GateDiff(e, S2) = {} /\ PxDiff(e, H) = {} /\ \A set \in bad : Diff(e, H, set) = {}
+  bad # {} /\ GateDiff(e, S2) = {} /\ ClrDiff(e, S2) = {} /\ PxDiff(e, H) = {} /\ \A set \in bad : Diff(e, H, set) = {}
 
 \* first failing clause of event e; S1 = state before, S2 = state after (model), Hc2/Hi2 = hypotheses after
 Clause(e, S1, S2, Hc2, Hi2) ==
@@ -116,13 +121,15 @@ Clause(e, S1, S2, Hc2, Hi2) ==
   ELSE IF D # {} THEN kind \o op.k \o "-changed-unrelated-node"
   ELSE IF \E set \in Settings : Diff(e, S2, set) # {} THEN kind \o op.k \o "-changed-other-setting"
   ELSE IF PxDiff(e, S2) # {} THEN kind \o op.k \o "-render-data-not-sized-for-effective-method"
-  ELSE kind \o op.k \o "-instantiation-gate-disagrees-with-forced-support"
+  ELSE IF GateDiff(e, S2) # {} THEN kind \o op.k \o "-instantiation-gate-disagrees-with-forced-support"
+  ELSE kind \o op.k \o "-clear-disagrees-with-forced-support-of-invoking-class"
 
 \* the setting a failing clause is about
 ClauseSetting(e, S2) ==
   LET bad == {i \in 1..Len(SettingSeq) : Diff(e, S2, SettingSeq[i]) # {}} IN
   IF ~WFEvent(e) THEN "none"
-  ELSE IF bad = {} /\ GateDiff(e, S2) = {} /\ PxDiff(e, S2) # {} THEN "rm"
+  ELSE IF bad = {} /\ GateDiff(e, S2) = {} /\ ClrDiff(e, S2) = {} /\ PxDiff(e, S2) # {} THEN "rm"
+  ELSE IF bad = {} /\ GateDiff(e, S2) \cup ClrDiff(e, S2) # {} THEN "fs"
   ELSE IF bad = {} \/ Diff(e, S2, e.set) # {} THEN e.set
   ELSE SettingSeq[CHOOSE i \in bad : \A j \in bad : i <= j]
 
